@@ -594,9 +594,29 @@ BINARY = {
     'shrink_by': lambda Pm, x, y: x.shrink(y.antimask).unshrink(y.antimask), 'clip_by': lambda Pm, x, y: x.clip(None, y),
     'where': lambda Pm, x, y: Pm.Scalar.as_scalar(x).mask_where(y < 1),
 }
+
+
+def _inplace_after_queries(opname):
+    """z = copy of x; ask the cached questions; z op= y; the cache must not keep answers about the old mask
+    (seeded change C03-A: a stale antimask lets reductions read the numbers hidden under the new mask)"""
+    import operator
+    fn = getattr(operator, opname)
+
+    def f(Pm, x, y):
+        z = x.copy()
+        z.antimask, z.corners, z.sum()
+        if z.shape:
+            z.shrink(z.antimask)
+        return fn(z, y)
+    return f
+
+
+for _nm in ('iadd', 'isub', 'imul', 'itruediv', 'ifloordiv', 'imod'):
+    BINARY[_nm + '_q'] = _inplace_after_queries(_nm)
 SMALL_UNARY = ['neg', 'sqrt', 'reciprocal', 'sum', 'mean', 'max', 'argmax', 'argmin', 'median', 'sort', 'any', 'all',
                'shrink_rt', 'pickle', 'as_int', 'mw_eq0', 'clip01', 'str', 'int', 'min']
-SMALL_BINARY = ['add', 'mul', 'truediv', 'floordiv', 'eq', 'lt', 'tvl_eq', 'maximum', 'minimum', 'stack', 'getitem', 'booleq']
+SMALL_BINARY = ['add', 'mul', 'truediv', 'floordiv', 'eq', 'lt', 'tvl_eq', 'maximum', 'minimum', 'stack', 'getitem', 'booleq',
+                'isub_q', 'itruediv_q']
 
 
 def _setitem(x, y):
